@@ -67,6 +67,14 @@ func relevantHeaders(c vkit.Call) string {
 // endpoint, goes by)
 var remoteFresh bool
 
+// varyOnLines: the remote side sends what its answer varies on as several header lines, "Authorization" (which an HTTP cache
+// may well have in its key) on the first one
+var varyOnLines bool
+
+// noVary: the answers depend on nothing but the url and the Authorization header of the request (both of which heimdall's
+// HTTP cache has in its key), so the remote side names no further header
+var noVary bool
+
 func remoteFn(c vkit.Call) vkit.Reply {
 	rep := remoteAnswer(c)
 
@@ -77,8 +85,13 @@ func remoteFn(c vkit.Call) vkit.Reply {
 
 		rep.Header["Cache-Control"] = "max-age=60"
 
-		if c.Method == "GET" {
-			rep.Header["Vary"] = "X-Tenant, Cookie, X-From-Output, X-Values, X-Static-0, X-Attrs"
+		if noVary {
+			// nothing to declare; the answer to a request with credentials may be stored if it says so (RFC 7234, section 3.2)
+			rep.Header["Cache-Control"] = "public, max-age=60"
+		} else if c.Method == "GET" && varyOnLines {
+			rep.Lines = http.Header{"Vary": {"Authorization", "X-Tenant, Cookie", "X-From-Output, X-Values, X-Static-0, X-Attrs", "X-Shift-A, X-Shift-Ab, X-Key-A, X-Key-Ab"}}
+		} else if c.Method == "GET" {
+			rep.Header["Vary"] = "X-Tenant, Cookie, X-From-Output, X-Values, X-Static-0, X-Attrs, X-Shift-A, X-Shift-Ab, X-Key-A, X-Key-Ab"
 		}
 	}
 
@@ -197,6 +210,8 @@ type caseSpec struct {
 	// own cache is off. The requests to the endpoint are POST requests, the answer to one of which must never be taken for
 	// the answer to another one (RFC 7234, section 4.4; RFC 7231, section 4.3.3)
 	HTTPCache    bool
+	VaryOnLines  bool
+	NoVary       bool
 	HTTPCacheGET bool
 	// BetweenAB: something which happens to the world between the executions A and B (with and without the cache)
 	BetweenAB func(w *vkit.World)
@@ -303,6 +318,8 @@ func checkCase(t *rapid.T, c caseSpec, excl map[string]bool) {
 	}
 
 	remoteFresh = c.HTTPCache
+	varyOnLines = c.VaryOnLines
+	noVary = c.NoVary
 	remote.Set(remoteFn)
 	vkit.S.LabelIf(c.HTTPCache, "http_cache_of_the_endpoint_only")
 	vkit.S.LabelIf(c.HTTPCacheGET, "http_cache_of_the_endpoint_only.GET")
@@ -518,6 +535,7 @@ func genSubjectHandlerCase(t *rapid.T, family string) caseSpec {
 		if rapid.Bool().Draw(t, "endpointAskedWithGET") {
 			pc["endpoint"].(map[string]any)["method"] = "GET"
 			c.HTTPCacheGET = true
+			c.VaryOnLines = rapid.Bool().Draw(t, "varyOnSeveralLines")
 		}
 	}
 
@@ -542,7 +560,7 @@ func genSubjectHandlerCase(t *rapid.T, family string) caseSpec {
 	}
 
 	c.Kind = rapid.SampledFrom([]string{"equal", "equal", "subject", "value", "payload", "expressions", "shifted-values", "forwarded-header", "forwarded-cookie",
-		"shifted-names-payload", "forwarded-names", "shifted-endpoint", "subject-attributes"}).Draw(t, "pairKind")
+		"shifted-names-payload", "forwarded-names", "shifted-endpoint", "subject-attributes", "shifted-url-authorization"}).Draw(t, "pairKind")
 
 	if family == "generic_contextualizer" {
 		// headers and cookies are forwarded independently of each other; the component which differs is always forwarded
@@ -642,6 +660,20 @@ func genSubjectHandlerCase(t *rapid.T, family string) caseSpec {
 
 		c.Kind = "shifted"
 		c.Detail = "name list and payload shifted across their boundary"
+	case "shifted-url-authorization":
+		// only the HTTP cache of the endpoint is in use (GET); the end of the url continued by the Authorization header of A
+		// reads like those of B
+		c.HTTPCache, c.HTTPCacheGET, c.NoVary = true, true, true
+		pc["cache_ttl"] = "0s"
+		pc["endpoint"] = map[string]any{"url": remote.URL() + remotePath + "/p{{ .Values.a }}", "method": "GET",
+			"headers": map[string]any{"Authorization": "{{ .Values.b }}"}, "http_cache": map[string]any{"enabled": true, "default_ttl": "5m"}}
+		pc["values"] = map[string]any{"a": "x", "b": "y"}
+		delete(pc, "forward_headers")
+		delete(pc, "forward_cookies")
+		overA = map[string]any{"values": map[string]any{"a": "x", "b": "GETy"}}
+		overB = map[string]any{"values": map[string]any{"a": "xGET", "b": "y"}}
+		c.Kind = "shifted"
+		c.Detail = "url and Authorization header of the endpoint shifted across their boundary (http cache of the endpoint only)"
 	case "subject-attributes":
 		// the subject comes from an authenticator which asks a remote system; the two subjects have the same id, and attributes
 		// which read the same once quoting, the ends of nested elements or the types of values are ignored. What the cached
